@@ -438,6 +438,41 @@ def _map_rows(states):
     return n, bad
 
 
+def _mapff_rows(states):
+    """.map [from]/[to] lists: render the model's lists, read with the real read_backmapping_file, compare the produced pairs."""
+    from vermouth.forcefield import ForceField
+    from vermouth.molecule import Block
+    from vermouth.map_input import read_backmapping_file
+    bad, n = [], 0
+    for st in states:
+        ffs = {}
+        for name, has_block in (('universal', True), ('martini22', True), ('aa2', True), ('cg2', True), ('noblock', False)):
+            ff = ForceField(name=name)
+            if has_block:
+                b = Block(force_field=ff)
+                b.name = 'X'
+                for a in ('A1', 'B1'):
+                    b.add_atom({'atomname': a, 'resname': 'X', 'resid': 1})
+                ff.blocks['X'] = b
+            ffs[name] = ff
+        text = ['[ molecule ]', 'X']
+        if st['fl']:
+            text += ['[from]', ' '.join(st['fl'])]
+        if st['tl']:
+            text += ['[to]', ' '.join(st['tl'])]
+        text += ['[ martini ]', 'B1', '[ atoms ]', '1 A1 B1']
+        try:
+            maps = read_backmapping_file(text, ffs)
+            got = sorted([f, t] for f in maps for t in maps[f] if 'X' in maps[f][t])
+        except Exception as exc:      # noqa
+            got = 'exception %r' % (exc,)
+        n += 1
+        exp = sorted([list(p) for p in st['out']])
+        if got != exp:
+            bad.append({'table': 'map-from-to', 'text': text, 'expected': exp, 'got': got})
+    return n, bad
+
+
 # ------------------------------------------------------------------ shipped force-field files
 TOP = {'macros', 'variables', 'citations', 'moleculetype', 'link', 'modification'}
 
@@ -631,6 +666,14 @@ def run(tier, seed, ev, vd):
         account(pmap(_map_rows, batch), '.map weights')
         nmap += len(batch)
     ev.extra['map_rows_replayed'] = {'rows': nmap, 'stride': stride}
+    # 4c. .map [from] / [to] lists: every pair of usable force fields, wherever unusable names stand
+    res = tlc.run('MapFileFF', 'SPECIFICATION Spec\nINVARIANT OpIsDecl\nINVARIANT OrderIrrelevant\n',
+                  consts={'Names': '{"universal", "martini22", "aa2", "cg2", "noblock", "unknownff"}',
+                          'Usable': '{"universal", "martini22", "aa2", "cg2"}', 'MaxList': '2' if quick else '3'}, dump=True, timeout=1800)
+    if res.violated:
+        raise tlc.MachineryError('MapFileFF violates %s' % res.violated)
+    ev.add_tlc('TAB MapFileFF', res)
+    account(pmap(_mapff_rows, list(res.states())), '.map from/to lists')
     # 5. FFFile: well-formed sequences + every fault at every position
     faults = sorted(CH.FAULT_IDS)
     menu = CH.menu_tla(None if not quick else {1, 2, 3, 4, 5, 6, 7, 8, 10, 13, 14, 15}, faults if not quick else faults[::2] + [faults[-1]])
@@ -675,9 +718,10 @@ def run(tier, seed, ev, vd):
     ev.extra['shipped_ff_files'] = len(events) - len(meta_events)
     ev.extra['metadata_events'] = len(meta_events)
     # 7. extension: the .mapping director (spec/MappingFile.tla) and the content of .itp files (spec/ItpFile.tla)
-    from . import c13_mapping, c13_itp
+    from . import c13_mapping, c13_itp, c13_cli
     c13_mapping.run_part(tier, seed, ev, vd)
     c13_itp.run_part(tier, seed, ev, vd)
+    c13_cli.run_part(tier, seed, ev, vd)
 
 
 def replay(sc):
@@ -704,7 +748,8 @@ def selftest(seed):
     res, verdicts = judge([ev_ok, ev_bad, f_ok, f_bad])
     assert verdicts[1] == 'ok' and verdicts[2] != 'ok' and verdicts[3] == 'ok' and verdicts[4] != 'ok', verdicts
     print('selftest C13: tampered events rejected:', verdicts[2], '/', verdicts[4])
-    from . import c13_mapping, c13_itp
+    from . import c13_mapping, c13_itp, c13_cli
     c13_mapping.selftest_part(seed)
     c13_itp.selftest_part(seed)
+    c13_cli.selftest_part(seed)
     return 0
